@@ -1647,6 +1647,53 @@ def _oracle_api(case):
                 continue
             v += _pref(_compare(sa, c, back, fmt, sa["stack"], "spelling"), f"spelling/{name}")
 
+        # ---- 3b. a copy of a file shares nothing with the original (whatever state its blocks are in)
+        for File, fmt in files:
+            try:
+                base = File()
+                put(base, A, sa)
+                states = [("filled-by-set_structure", base)]
+                accessed = _reread(base)
+                pdbx.get_model_count(accessed)                    # the block now exists as an object
+                pdbx.get_structure(accessed, **_read_kw(sa))
+                states += [("read-and-accessed", accessed), ("read-not-accessed", _reread(base)), ("copy-of-copy", base.copy())]
+                for sname, orig in states:
+                    snap = _file_bytes(orig)
+                    dup = orig.copy()
+                    if _file_bytes(dup) != snap:
+                        v.append((f"C04/api/copy/{fmt}/{sname}/copy-differs", "file.copy() does not serialise like the file"))
+                    put(dup, B, sb)                               # another structure into the copy
+                    if _file_bytes(orig) != snap:
+                        v.append((f"C04/api/copy/{fmt}/{sname}/set_structure-on-copy-changes-original",
+                                  "set_structure() on file.copy() changed what the original file decodes to"))
+                        continue
+                    v += _pref(_compare(sb, B, pdbx.get_structure(_reread(dup), **_read_kw(sb)), fmt, sb["stack"], "copy"), f"copy/{fmt}/{sname}/copy-content")
+                    dup2 = orig.copy()
+                    snap2 = _file_bytes(dup2)
+                    put(orig, B, sb)                              # ... and the other way round
+                    if _file_bytes(dup2) != snap2:
+                        v.append((f"C04/api/copy/{fmt}/{sname}/set_structure-on-original-changes-copy",
+                                  "set_structure() on the original changed its earlier copy"))
+                    put(orig, A, sa)
+                    # edits below the file level
+                    snap = _file_bytes(orig)
+                    dup3 = orig.copy()
+                    blk = dup3.block
+                    site = blk["atom_site"]
+                    site["Cartn_x"] = np.asarray(site["Cartn_x"].as_array(np.float32)) + np.float32(1.0)
+                    arr_x = blk["atom_site"]["Cartn_y"].data.array
+                    if arr_x.flags.writeable:
+                        arr_x[...] = arr_x[::-1].copy()
+                    if "cell" in blk:
+                        del blk["cell"]
+                    dup3["extra_block"] = File.subcomponent_class()()
+                    if _file_bytes(orig) != snap:
+                        v.append((f"C04/api/copy/{fmt}/{sname}/edit-of-copy-changes-original",
+                                  "editing categories / columns / arrays of file.copy() changed the original"))
+                        put(orig, A, sa)
+            except Exception as e:  # noqa: BLE001
+                v.append((f"C04/api/copy/{fmt}/error/{type(e).__name__}", f"{type(e).__name__}: {str(e)[:140]}"))
+
         # ---- 4. arguments forwarded through the layers, defaults, ambient state
         for File, fmt in files:
             f = File()
@@ -2220,6 +2267,18 @@ def oracle(case):
 
 
 def _oracle_inner(case):
+    """An exception that escapes one of the oracles is itself a verdict with a key of its own (kind + exception)."""
+    import traceback
+    try:
+        return _oracle_dispatch(case)
+    except Exception as e:  # noqa: BLE001
+        tb = traceback.extract_tb(e.__traceback__)
+        where = next((f"{fr.name}:{fr.lineno}" for fr in reversed(tb) if "biotite" in fr.filename), f"{tb[-1].name}:{tb[-1].lineno}")
+        return [(f"C04/{case.get('kind')}/exception/{type(e).__name__}",
+                 f"{type(e).__name__} escaped while checking this case at {where}: {str(e)[:160]}")]
+
+
+def _oracle_dispatch(case):
     k = case.get("kind")
     if k == "api":
         return _oracle_api(case)
